@@ -28,6 +28,7 @@ inductive P where
   | V (k : Nat) (c : P)
   | S (g a b : Nat) (c : P)
   | U (c : P)
+  | W (k : Nat) (c : P)
   | R (g a b : Nat)
   | F (n id : Nat)
   | Q (cs : List P)
@@ -65,6 +66,12 @@ partial def parseP (depth : Nat) (cs : List Char) : Option (P × List Char) :=
     let r ← eat '(' r
     let (c, r) ← parseP (depth + 1) r; let r ← eat ')' r
     pure (.U c, r)
+  | 'W' :: r => do
+    let (k, r) ← takeNum r
+    if k > 1 then none else
+    let r ← eat '(' r
+    let (c, r) ← parseP (depth + 1) r; let r ← eat ')' r
+    pure (.W k c, r)
   | 'R' :: r => do
     let (g, r) ← takeNum r; let r ← eat '.' r
     let (a, r) ← takeNum r; let r ← eat '.' r
@@ -100,12 +107,14 @@ partial def gatesOf : P → List Nat
   | .R g _ _ => [g]
   | .V _ c => gatesOf c
   | .U c => gatesOf c
+  | .W _ c => gatesOf c
   | .Q cs => cs.flatMap gatesOf
   | _ => []
 
 partial def hasSusp : P → Bool
   | .U _ => true
   | .V _ c => hasSusp c
+  | .W _ c => hasSusp c
   | .S _ _ _ c => hasSusp c
   | .Q cs => cs.any hasSusp
   | _ => false
@@ -115,6 +124,7 @@ partial def hasU : P → Bool
   | .U _ => true
   | .C _ => true
   | .V _ c => hasU c
+  | .W _ c => hasU c
   | .S _ _ _ c => hasU c
   | .Q cs => cs.any hasU
   | _ => false
@@ -185,6 +195,15 @@ partial def compile (base r : Nat) (io : Bool) (ctx : Ctx) (acc : CAcc) : P → 
       recs := if isSite then acc.recs ++ [{ mkRec siteId .site ctx with site := some siteId, hasSusp := hasSusp c }]
               else acc.recs }
     compile base r io { ctx with scope := o, covered := true, site := if isSite then some siteId else ctx.site } acc c
+  | .W _ c =>
+    -- Router + FlatRoutes/Routes: the matched route's view is an `OwnedView` under a child of the owner the
+    -- router captured in its component body (`choose_ssr` / `Outlet`): like a Provider without a value
+    let isSite := ctx.late && hasU c
+    let siteId := acc.recs.length
+    let acc := { acc with
+      recs := if isSite then acc.recs ++ [{ mkRec siteId .site ctx with site := some siteId, hasSusp := hasSusp c }]
+              else acc.recs }
+    compile base r io { ctx with covered := true, site := if isSite then some siteId else ctx.site } acc c
   | .U c =>
     let isSite := ctx.late && hasU c
     let siteId := acc.recs.length
